@@ -30,7 +30,8 @@ fn main() {
     for index in 0..enumerated {
         let plan = make_plan(&w, seed, index, Tier::Quick);
         if let Plan::Crash(c) = &plan {
-            if c.len > 3 {
+            // three components: lengths 0..=3; one, two and four components: lengths 0..=2
+            if c.len > 3 || (c.ncomp != 3 && c.len > 2) {
                 continue;
             }
         }
